@@ -1,5 +1,6 @@
 //! pvh — correspondence harness: runs the real penne implementation on case
 //! files and prints one canonical line per case.
+mod delta;
 mod diag;
 mod exec;
 mod expand;
@@ -20,6 +21,7 @@ fn main()
 	match args[1].as_str()
 	{
 		"front" => front::stream(&args[2]),
+		"delta-tree" => delta::stream(&args[2]),
 		"diag" => diag::stream(&args[2]),
 		"expand" => expand::stream(&args[2]),
 		"exec" => exec::stream(&args[2], true, false, false),
